@@ -26,7 +26,10 @@ type PageSpec struct {
 	Pad        uint8 // junk used to pad the last bit-packed group
 	Stats      bool  // write a Statistics struct (null_count only; min/max are not needed by readers)
 	Extras     bool  // add optional thrift fields a reader must skip (crc, unknown field)
-	Feature    string
+	// AbsentBP: a level stream the column does not have (max level 0) is labelled BIT_PACKED in the page header and the chunk's
+	// encodings list, as parquet-mr does in every v1 file (legal: there is no such stream, the label describes nothing)
+	AbsentBP bool
+	Feature  string
 	// Feature: "" | "v2" | "index-before" | "enc-rle-bool" | "enc-delta" | "enc-delta-length" |
 	//          "levels-bitpacked" | "def-bitpacked" | "rep-bitpacked" | "dict" (chunk-level, see ChunkSpec)
 }
@@ -633,6 +636,14 @@ func encodePage(ch ChunkSpec, p PageSpec, dictIdx map[string]int) ([]byte, int, 
 	case "rep-bitpacked":
 		dp.SetI32(4, EncBitPacked)
 	}
+	if p.AbsentBP && p.Feature == "" {
+		if col.MaxDef == 0 {
+			dp.SetI32(3, EncBitPacked)
+		}
+		if col.MaxRep == 0 {
+			dp.SetI32(4, EncBitPacked)
+		}
+	}
 	if p.Stats {
 		dp.SetSt(5, statsStruct(col, p, col.MaxDef))
 	}
@@ -747,6 +758,12 @@ func WriteFile(spec FileSpec) ([]byte, error) {
 			encs := []TVal{{T: TI32, I: EncPlain}, {T: TI32, I: EncRLE}}
 			if dictIdx != nil {
 				encs = append(encs, TVal{T: TI32, I: map[bool]int64{true: 8, false: EncPlainDict}[ch.Feature == "dict-rle"]})
+			}
+			for _, pg := range ch.Pages {
+				if pg.AbsentBP && pg.Feature == "" && (ch.Col.MaxDef == 0 || ch.Col.MaxRep == 0) {
+					encs = append(encs, TVal{T: TI32, I: EncBitPacked})
+					break
+				}
 			}
 			var path []TVal
 			for _, s := range ch.Col.Path {
